@@ -1355,6 +1355,9 @@ func rulesC18(w *World, o *Out) {
 							walk(p2)
 							continue
 						}
+						if elementOfBalanceFilter(ev) {
+							continue // an element of slice.Filter(accounts, HasBalance(.., account, coin))
+						}
 						pred := ph.Block().Preds[i]
 						facts := DomFacts(pred)
 						if len(pred.Instrs) > 0 {
@@ -1555,4 +1558,56 @@ func rulesC18(w *World, o *Out) {
 		}
 		o.Check("C18.R3", w.FuncKey(f)+"|sale configuration written only by governance or genesis", len(bad) == 0, w.Pos(m.Site.Instr.Pos()), "reachable from "+strings.Join(bad, ","))
 	}
+}
+
+// elementOfBalanceFilter: v is an element of the result of util/slice.Filter(xs, pred) where every return of pred
+// is HasBalance(.., <pred's parameter>, ..): each element is an account for which the balance check held.
+func elementOfBalanceFilter(v ssa.Value) bool {
+	u, ok := canon(v).(*ssa.UnOp)
+	if !ok {
+		return false
+	}
+	ia, ok := u.X.(*ssa.IndexAddr)
+	if !ok {
+		return false
+	}
+	fc, ok := canon(ia.X).(*ssa.Call)
+	if !ok || len(fc.Call.Args) != 2 {
+		return false
+	}
+	cal, okc := CalleeOf(fc.Common())
+	if !okc || !strings.HasSuffix(cal.Pkg, "util/slice") || !strings.HasPrefix(cal.Name, "Filter") {
+		return false
+	}
+	var fn *ssa.Function
+	switch x := fc.Call.Args[1].(type) {
+	case *ssa.MakeClosure:
+		fn, _ = x.Fn.(*ssa.Function)
+	case *ssa.Function:
+		fn = x
+	}
+	if fn == nil || len(fn.Params) != 1 {
+		return false
+	}
+	n := 0
+	for _, b := range fn.Blocks {
+		r, isR := b.Instrs[len(b.Instrs)-1].(*ssa.Return)
+		if !isR || len(r.Results) != 1 {
+			continue
+		}
+		n++
+		hb, isC := canon(r.Results[0]).(*ssa.Call)
+		if !isC {
+			return false
+		}
+		hcal, okh := CalleeOf(hb.Common())
+		if !okh || hcal.Name != "HasBalance" {
+			return false
+		}
+		args := hb.Common().Args
+		if len(args) < 2 || canon(args[len(args)-2]) != ssa.Value(fn.Params[0]) {
+			return false
+		}
+	}
+	return n > 0
 }
